@@ -225,7 +225,7 @@ func (g *Gen) posts(n *Node) []PostSpec {
 	var out []PostSpec
 	for i := 0; i < k; i++ {
 		ps := PostSpec{ID: g.id(), DType: n.DType()}
-		ps.Kind = rng.Pick(r, []string{"id", "inc", "inc", "set", "fail", "incfail", "failissue"})
+		ps.Kind = rng.Pick(r, []string{"id", "inc", "inc", "set", "fail", "incfail", "failissue", "failwrap"})
 		if n.Kind == "struct" || n.Kind == "ptr" || n.Kind == "custom" {
 			if ps.Kind == "set" || ps.Kind == "inc" || ps.Kind == "incfail" {
 				ps.Kind = "id"
@@ -341,9 +341,9 @@ func (g *Gen) wrapPre(n *Node) *Node {
 	case isPrim("int"):
 		w.PreKind = rng.Pick(r, []string{"atoi", "atoi", "atoi", "idany", "mismatch", "fail"})
 	case isPrim("str"):
-		w.PreKind = rng.Pick(r, []string{"trim", "trim", "idany", "fail", "failissue"})
+		w.PreKind = rng.Pick(r, []string{"trim", "trim", "idany", "fail", "failissue", "failwrap"})
 	default:
-		w.PreKind = rng.Pick(r, []string{"idany", "idany", "idany", "idany", "fail", "failissue"})
+		w.PreKind = rng.Pick(r, []string{"idany", "idany", "idany", "idany", "fail", "failissue", "failwrap"})
 	}
 	if w.PreKind == "failissue" {
 		w.PreIss = PostSpec{Code: rng.Pick(r, []string{"pre_code", "custom", ""}), Path: rng.Pick(r, []string{"", "elsewhere", "a.b"}),
@@ -395,6 +395,9 @@ func (g *Gen) NodeOf(kind string, depth int) *Node {
 		}
 		n.Tests = g.primTests(n.PK)
 		n.Posts = g.posts(n)
+		if n.PK == "time" && r.P(35, 100) {
+			n.Layout = rng.Pick(r, []string{"2006-01-02", "20060102", "2006", "02/01/2006 15:04", "20060102150405"})
+		}
 		if g.Coercers && r.P(12, 100) {
 			switch n.PK {
 			case "int":
@@ -588,9 +591,9 @@ func (g *Gen) Input(n *Node) V {
 			return out
 		}
 	}
-	// absent-looking
+	// absent-looking (strings.TrimSpace also strips the Unicode spaces)
 	if r.P(12, 100) {
-		return rng.Pick(r, []V{VNil(), VNil(), VStr(""), VStr("  ")})
+		return rng.Pick(r, []V{VNil(), VNil(), VNil(), VStr(""), VStr(""), VStr("  "), VStr(" \t"), VStr("\u00a0"), VStr("\u3000\u2003"), VStr("\u0085 ")})
 	}
 	switch n.Kind {
 	case "pre":
@@ -623,7 +626,12 @@ func (g *Gen) Input(n *Node) V {
 			return rng.Pick(r, []V{VBool(true), VBool(false), VStr(rng.Pick(r, []string{"true", "false", "on", "off", "1", "0", "T", "F", "TRUE", "yes", "zz"})), VInt(int64(r.Range(0, 2)))})
 		case "time":
 			t := g.aTime()
-			return rng.Pick(r, []V{VTime(t), VTime(t), VInt(t.Unix()), {K: "i", IK: "i64", I: t.Unix()}, VStr(t.Format(time.RFC3339)), VStr("2024-05-06"), VStr("zz"), VF64(1)})
+			layout := time.RFC3339
+			if n.Layout != "" {
+				layout = n.Layout
+			}
+			return rng.Pick(r, []V{VTime(t), VTime(t), VInt(t.Unix()), {K: "i", IK: "i64", I: t.Unix()}, VStr(t.Format(time.RFC3339)), VStr(t.Format(layout)), VStr(t.Format(layout)),
+				VStr("2024-05-06"), VStr("zz"), VF64(1), VStr("20240131"), VStr("1733007600"), VStr("2024")})
 		}
 	case "slice":
 		if n.Coercer == "csv" && r.P(1, 2) {
